@@ -796,6 +796,90 @@ fn socket_sweep(ctx: &mut Ctx, ty: &str, variant: u64, pairs: bool, seed: u64, c
     let _ = case;
 }
 
+/// Real TCP, multi-thread runtime: several raw peers write every message in two or three
+/// pieces (segments arrive on the reactor thread while the receiver is busy with another
+/// connection). What the socket returns depends on the byte streams only: every message,
+/// whole, in each peer's order.
+async fn rig_pieces(ty: &str, npeers: usize, per: u32, seed: u64) -> Result<(u64, u64), (String, String)> {
+    use crate::rig::{self, Raw, WAIT};
+    use crate::sock::Sock;
+    use std::time::Duration;
+    let inc = |e: String| ("inconclusive".to_string(), e);
+    let mut sock = Sock::new(ty, None);
+    let ep = sock.bind(&rig::bind_endpoint("tcp4")).await.map_err(inc)?;
+    if ty == "SUB" {
+        sock.subscribe("").await.map_err(inc)?;
+    }
+    let peer_ty = crate::sock::peer_type_for(ty).to_string();
+    let mut tasks = Vec::new();
+    for k in 0..npeers {
+        let (ep, peer_ty) = (ep.clone(), peer_ty.clone());
+        tasks.push(tokio::spawn(async move {
+            let mut r = Rng::keyed(seed, &[2, 0x71EC, k as u64]);
+            let mut raw = Raw::connect(&ep).await.map_err(|e| e.to_string())?;
+            raw.handshake(&peer_ty, None).await?;
+            let mut pieces = 0u64;
+            for i in 0..per {
+                let m = rc::message_as_peer(&rc::tagged(k as u16, i, &[r.below(40), *r.pick(&[0usize, 3, 300])]));
+                let a = r.range(1, m.len() - 1);
+                let b = r.range(a, m.len());
+                for part in [&m[..a], &m[a..b], &m[b..]] {
+                    if part.is_empty() {
+                        continue;
+                    }
+                    raw.write_all(part).await.map_err(|e| e.to_string())?;
+                    pieces += 1;
+                    if r.chance(1, 3) {
+                        tokio::task::yield_now().await;
+                    }
+                }
+            }
+            // keep the connection up until the receiver is done
+            tokio::time::sleep(Duration::from_millis(300)).await;
+            Ok::<u64, String>(pieces)
+        }));
+    }
+    let total = per as u64 * npeers as u64;
+    let mut next = vec![0u32; npeers];
+    let mut got = 0u64;
+    while got < total {
+        let m = match tokio::time::timeout(WAIT, sock.recv()).await {
+            Ok(Ok(m)) => m,
+            Ok(Err(e)) => return Err((format!("C02/rig/recv-error/{ty}"), e)),
+            Err(_) => {
+                if !rig::canary_ok().await {
+                    return Err(inc("receiver starved while the canary was slow".into()));
+                }
+                return Err((
+                    format!("C02/rig/stream-not-delivered/{ty}"),
+                    format!("{npeers} peers wrote {per} messages each in pieces over TCP; the socket returned {got} of {total} and then nothing for {WAIT:?} (next expected per peer: {next:?})"),
+                ));
+            }
+        };
+        let skip = if ty == "ROUTER" { 1 } else { 0 };
+        match rc::parse_tag(&m, skip) {
+            Ok(t) if (t.origin as usize) < npeers && t.seq == next[t.origin as usize] => next[t.origin as usize] += 1,
+            other => {
+                return Err((
+                    format!("C02/rig/message-differs-from-stream/{ty}"),
+                    format!("after {got} messages: got {other:?} ({}), next expected per peer {next:?}", rc::frames_summary(&m)),
+                ))
+            }
+        }
+        got += 1;
+    }
+    let mut pieces = 0;
+    for t in tasks {
+        match tokio::time::timeout(WAIT, t).await {
+            Ok(Ok(Ok(p))) => pieces += p,
+            Ok(Ok(Err(e))) => return Err(inc(format!("writer: {e}"))),
+            _ => return Err(inc("writer task did not finish".into())),
+        }
+    }
+    let _ = tokio::time::timeout(WAIT, sock.close()).await;
+    Ok((got, pieces))
+}
+
 impl Prop for C02 {
     fn id(&self) -> &'static str {
         "C02"
@@ -826,6 +910,11 @@ impl Prop for C02 {
                               "randoms": tier.pick(200, 500)}));
             }
         }
+        for ty in ["PULL", "ROUTER", "SUB", "DEALER"] {
+            for k in 0..tier.pick(2u64, 12) {
+                v.push(json!({"kind": "rig_pieces", "ty": ty, "peers": 8, "per": tier.pick(1500, 6000), "seed": seed ^ (k << 20)}));
+            }
+        }
         for ty in ["PULL", "SUB", "DEALER", "ROUTER", "REP", "XPUB", "REQ", "PUB"] {
             let variants: &[u64] = if ty == "PUB" { &[0] } else { tier.pick(&[0, 2], &[0, 1, 2]) };
             for var in variants {
@@ -838,6 +927,19 @@ impl Prop for C02 {
 
     fn run(&self, case: &Value, ctx: &mut Ctx) {
         match s(case, "kind") {
+            "rig_pieces" => {
+                ctx.eval(hash_str(&case.to_string()), true);
+                ctx.sample("rig_pieces", || case.clone());
+                let (res, _) = crate::rig::run(4, rig_pieces(s(case, "ty"), u(case, "peers") as usize, u(case, "per") as u32, u(case, "seed")));
+                match res {
+                    Ok((got, pieces)) => {
+                        ctx.add("rig_messages_reassembled_from_pieces", got);
+                        ctx.add("rig_pieces_written", pieces);
+                    }
+                    Err((sig, msg)) if sig == "inconclusive" => ctx.inconclusive(format!("C02 rig: {msg}")),
+                    Err((sig, msg)) => ctx.violation_with(&sig, msg, case.clone()),
+                }
+            }
             "all16" => {
                 ctx.sample("all_partitions", || case.clone());
                 codec_all_partitions(ctx, s(case, "tail"), u(case, "lo") as u32, u(case, "hi") as u32)
@@ -927,6 +1029,7 @@ impl Prop for C02 {
         vec![
             ("exhaustive_partitions_of_16_bytes", tier.pick(3, 5) * 32768),
             ("codec_partitions", 100_000),
+            ("rig_messages_reassembled_from_pieces", 50_000),
             ("socket_partitions", 2000),
             ("cut_inside_greeting", 50),
             ("cut_between_flags_and_size", 5),
